@@ -260,6 +260,104 @@ fn setter_matrix_cases(o: &mut Out, thorough: bool) {
     o.distinct("setter-matrix");
 }
 
+/// whole-image histories over a sink that starts refusing at a chunk boundary vs Model/WriterFail.v f_history: what every call returns
+/// and which chunks the sink holds
+fn failing_sink_model_cases(o: &mut Out, rng: &mut Rng, thorough: bool) {
+    let kinds_after_header = |bytes: &[u8], header_len: usize| -> Result<Vec<String>, String> {
+        // whole chunks only (the sink refuses at chunk boundaries)
+        let mut v = vec![];
+        let mut i = header_len;
+        while i + 12 <= bytes.len() {
+            let len = u32::from_be_bytes([bytes[i], bytes[i + 1], bytes[i + 2], bytes[i + 3]]) as usize;
+            if i + 12 + len > bytes.len() { return Err(format!("partial chunk at {}", i)); }
+            let ty = &bytes[i + 4..i + 8];
+            v.push(match ty {
+                b"IDAT" => "IDAT".to_string(),
+                b"IEND" => "IEND".to_string(),
+                b"fcTL" => format!("fcTL:{}", u32::from_be_bytes([bytes[i + 8], bytes[i + 9], bytes[i + 10], bytes[i + 11]])),
+                b"fdAT" => format!("fdAT:{}", u32::from_be_bytes([bytes[i + 8], bytes[i + 9], bytes[i + 10], bytes[i + 11]])),
+                other => String::from_utf8_lossy(other).to_string(),
+            });
+            i += 12 + len;
+        }
+        if i != bytes.len() { return Err(format!("{} trailing bytes", bytes.len() - i)); }
+        Ok(v)
+    };
+    // one history: returns (results, accepted bytes, header length, call log)
+    let run_history = |anim: Option<u32>, sep: bool, validate: bool, nimg: usize, finish: bool, fail_from: Option<usize>| -> Result<(Vec<String>, Vec<u8>, usize, Vec<usize>), String> {
+        let sink = Sink::new(0, fail_from, false);
+        let r = guarded(|| -> Result<(Vec<String>, usize), String> {
+            let mut e = png::Encoder::new(sink.clone(), 2, 2);
+            e.set_color(png::ColorType::Grayscale);
+            e.set_depth(png::BitDepth::Eight);
+            if let Some(nf) = anim {
+                e.set_animated(nf, 0).map_err(|er| format!("{:?}", er))?;
+                if sep { e.set_sep_def_img(true).map_err(|er| format!("{:?}", er))?; }
+            }
+            e.validate_sequence(validate);
+            let mut w = e.write_header().map_err(|er| format!("header: {:?}", er))?;
+            let header_len = sink.0.borrow().accepted.len();
+            let mut res = vec![];
+            let class = |er: &png::EncodingError| -> String {
+                let d = format!("{:?}", er);
+                if d.contains("EndReached") { "end".into() } else if d.contains("MissingFrames") { "missing".into() } else if d.contains("IoError") || d.contains("sink failure") { "sink".into() } else { format!("other:{}", d.chars().take(60).collect::<String>()) }
+            };
+            for k in 0..nimg {
+                res.push(match w.write_image_data(&[k as u8, 1, 2, 3]) { Ok(()) => "ok".to_string(), Err(er) => class(&er) });
+            }
+            if finish {
+                res.push(match w.finish() { Ok(()) => "ok".to_string(), Err(er) => class(&er) });
+            } else {
+                drop(w);
+            }
+            Ok((res, header_len))
+        });
+        match r {
+            Ok(Ok((res, hl))) => { let st = sink.0.borrow(); Ok((res, st.accepted.clone(), hl, st.call_log.clone())) }
+            Ok(Err(e)) => Err(e),
+            Err(m) => Err(format!("PANIC {}", m)),
+        }
+    };
+    let configs: Vec<(Option<u32>, bool)> = vec![(None, false), (Some(1), false), (Some(2), false), (Some(3), false), (Some(1), true), (Some(2), true)];
+    for &(anim, sep) in &configs {
+        let declared = anim.map_or(1, |nf| nf as usize + sep as usize);
+        for validate in [true, false] {
+            for nimg in 0..=(declared + 2) {
+                for finish in [true, false] {
+                    // healthy dry run: where the chunks start
+                    let dry = match run_history(anim, sep, validate, nimg, finish, None) {
+                        Ok(x) => x,
+                        Err(e) => { o.violation(viol("encoder-panicked", "encoder-panicked", vec![("why", jstr(&e))])); continue; }
+                    };
+                    let (dry_res, dry_bytes, header_len, dry_calls) = dry;
+                    let kinds = match kinds_after_header(&dry_bytes, header_len) { Ok(k) => k, Err(e) => { o.violation(viol("encoder-output-not-conformant", "encoder-output-not-conformant", vec![("why", jstr(&e))])); continue; } };
+                    let anim_s = anim.map_or("-".to_string(), |n| n.to_string());
+                    let ns = if nimg == 0 { "-".to_string() } else { vec!["1"; nimg].join(",") };
+                    o.direct_checks += 1;
+                    o.case(&format!("wfail {} {} {} - {} {}", validate as u8, anim_s, sep as u8, ns, finish as u8), &format!("{} | {}", kinds.join(" "), dry_res.join(",")),
+                        &format!("wf-{}-{}-{}-{}-{}", anim_s, sep, validate, nimg, finish), nimg > 0);
+                    // chunk boundaries (offsets) after the header, incl. the end; the sink starts refusing at the first call made at that offset
+                    let mut offs = vec![header_len];
+                    { let mut i = header_len; while i + 12 <= dry_bytes.len() { let len = u32::from_be_bytes([dry_bytes[i], dry_bytes[i + 1], dry_bytes[i + 2], dry_bytes[i + 3]]) as usize; i += 12 + len; offs.push(i); } }
+                    let picks: Vec<usize> = if thorough || offs.len() <= 4 { (0..offs.len()).collect() } else { let mut v = vec![0, offs.len() - 1]; v.push(rng.below(offs.len() as u64) as usize); v.push(rng.below(offs.len() as u64) as usize); v.sort(); v.dedup(); v };
+                    for j in picks {
+                        let call = match dry_calls.iter().position(|&l| l == offs[j]) { Some(c) => c, None => continue };   // no call at this offset (the end, when nothing follows)
+                        let (res, bytes, hl, _) = match run_history(anim, sep, validate, nimg, finish, Some(call)) {
+                            Ok(x) => x,
+                            Err(e) => { o.violation(viol("encoder-panicked", "encoder-panicked", vec![("why", jstr(&e)), ("fail_from_call", call.to_string())])); continue; }
+                        };
+                        let kinds = match kinds_after_header(&bytes, hl) { Ok(k) => k.join(" "), Err(e) => format!("UNPARSABLE {}", e) };
+                        o.direct_checks += 1;
+                        o.case(&format!("wfail {} {} {} {} {} {}", validate as u8, anim_s, sep as u8, j, ns, finish as u8), &format!("{} | {}", kinds, res.join(",")),
+                            &format!("wf-{}-{}-{}-{}-{}-b{}", anim_s, sep, validate, nimg, finish, j), true);
+                        o.count("failing-sink-model-cases");
+                    }
+                }
+            }
+        }
+    }
+}
+
 pub fn run(a: &Args) {
     let mut o = Out::new(&a.out);
     let mut rng = Rng::new(a.seed);
@@ -267,6 +365,7 @@ pub fn run(a: &Args) {
     setter_matrix_cases(&mut o, thorough);
     retry_cases(&mut o, &mut rng, thorough);
     keep_going_cases(&mut o, &mut rng, thorough);
+    failing_sink_model_cases(&mut o, &mut rng, thorough);
     for k in 0..(if thorough { 4000 } else { 260 }) {
         let mut cfg = random_cfg(&mut rng, None);
         cfg.validate = k % 2 == 0;
